@@ -49,11 +49,13 @@ type Program struct {
 
 // Options for Load.
 type Options struct {
-	RepoDir string
-	GOOS    string
-	GOARCH  string
-	Overlay map[string][]byte
-	noCanon bool // second load: names are canonical already
+	RepoDir     string
+	GOOS        string
+	GOARCH      string
+	Overlay     map[string][]byte
+	noCanon     bool // second load: names are canonical already
+	noInline    bool // no (further) inlining of new helpers
+	inlineRound int
 	// Light loads only the in-scope packages' syntax (NeedDeps types from export data are not
 	// available offline for all deps, so deps are still type-checked from source, but their
 	// syntax is dropped).
@@ -153,13 +155,42 @@ func Load(opt Options) (*Program, error) {
 				opt2 := opt
 				opt2.Overlay = merged
 				opt2.noCanon = true
+				opt2.noInline = true
 				// best effort: if the renamed sources do not type-check (a name collision the
 				// discovery did not foresee) the tree is analysed under its own names
 				if p2, err := Load(opt2); err == nil {
 					Renames = notes
-					return p2, nil
+					p = p2
 				}
 			}
+		}
+	}
+	if !opt.noInline && opt.inlineRound < 3 {
+		// calls of helpers the rules have never seen are replaced by the helper's body
+		// (load/inline.go); best effort as well
+		if ov, notes := p.inlineOverlay(); len(ov) > 0 {
+			merged := map[string][]byte{}
+			for k, v := range p.Overlay {
+				merged[k] = v
+			}
+			for k, v := range ov {
+				merged[k] = v
+			}
+			opt3 := opt
+			opt3.Overlay = merged
+			opt3.noCanon = true
+			opt3.inlineRound = opt.inlineRound + 1
+			saved := Inlined
+			Inlined = append(append([]string{}, Inlined...), notes...)
+			if p3, err := Load(opt3); err == nil {
+				return p3, nil
+			} else if os.Getenv("DSTVERIF_DEBUG_INLINE") != "" {
+				fmt.Fprintf(os.Stderr, "inline: rewritten sources rejected: %v\n", err)
+				for name, b := range ov {
+					os.WriteFile("/tmp/inline_"+strings.ReplaceAll(strings.TrimPrefix(name, "/"), "/", "_"), b, 0o644)
+				}
+			}
+			Inlined = saved
 		}
 	}
 	return p, nil
